@@ -45,3 +45,11 @@ benign("c08-benign-switch-form-of-check", ["C08"],
 benign("c08-benign-rename-local", ["C08"],
     [("jpeg2000/codestream/parser.go", "	dataLength := int(length) - 3 // length includes itself (2) and Sqcd (1)\n	qcd.SPqcd = make([]byte, dataLength)",
       "	payload := int(length) - 3 // length includes itself (2) and Sqcd (1)\n	qcd.SPqcd = make([]byte, payload)")])
+brk("c08-baseline-sof-drop-length-check", ["C08"],
+    [("jpeg/baseline/decoder.go", "	if len(data) < 6 {\n		return standard.ErrInvalidSOF\n	}\n", "")],
+    "SLICE-CONST", "parseSOF")
+brk("c08-baseline-dri-drop-length-check", ["C08"],
+    [("jpeg/baseline/decoder.go", "	if len(data) != 2 {\n		return standard.ErrInvalidData\n	}\n", "")],
+    "SLICE-CONST", "parseDRI")
+benign("c08-benign-length-check-reordered", ["C08"],
+    [("jpeg/baseline/decoder.go", "	if len(data) != 2 {\n		return standard.ErrInvalidData\n	}\n", "	if 2 != len(data) {\n		return standard.ErrInvalidData\n	}\n")])
